@@ -32,7 +32,7 @@ def handle (ts : List String) : String :=
         | some dm => ",".intercalate ((sortDm dm).map (fun (e : Nat × Nat) => s!"{e.1}:{e.2}"))
       s!"{verdict m} dm={dm}\t{verdict s} dm={dm}\tother"
     | none =>
-    let m := (run c.cfg c.env c.node c.input).isOk
+    let m := (runOw c.cfg c.env c.node c.input).isOk
     let s := Spec.accepts c.own c.written c.input
     -- a member the container cannot call, whose own verdict would have changed the composite's
     let why := if !c.skip.isEmpty && Spec.accepts c.env c.node c.input != s then "member-schema-never-asked"
